@@ -364,6 +364,8 @@ class Finding:
 def load_findings():
     path = os.path.join(VERIF, "KNOWN_FINDINGS.txt")
     res = []
+    if os.environ.get("VERIF_IGNORE_FINDINGS"):   # maintenance only (tools/collect_witnesses.py): never set by a registered command
+        return res
     if not os.path.exists(path):
         return res
     for line in open(path):
